@@ -5,7 +5,7 @@ import srvflow
 INV = ["T_C01_ServedOnce", "T_C01_Conservation", "T_C01_NoSilentDrop"]
 DESIGN = ["MC_core_2l.cfg", "MC_core_quick.cfg", "MC_fault_w1.cfg"]
 EDGES = ["MC_core_2l.cfg", "MC_fault_w1.cfg"]
-THOROUGH = ["MC_core_w3l3.cfg", "MC_cmd_w2.cfg", "MC_fault2.cfg"]
+THOROUGH = ["MC_core_w3l3.cfg", "MC_core_w3l3c7.cfg", "MC_cmd_w2.cfg", "MC_cmd_w2b.cfg", "MC_fault2.cfg"]
 NEGS = {}
 
 
